@@ -166,6 +166,7 @@ struct Kernel {
     uint64_t epoll_waits = 0;
     bool poll_failure_injected = false;
     int sigpipe_count = 0;
+    std::function<void()> on_epoll_wait;   // harness hook: the quiescent point (no callback running)
 
     void reset();
     int alloc_fd(std::shared_ptr<File> f, Owner by);
